@@ -584,7 +584,17 @@ def run(facts, R):
     cx = Ctx(facts, R)
     # the entry table is a floor, not the domain: every function that decodes a wire header is a parser / reader of hostile
     # bytes, whatever it is called and whenever it was added
-    derived = sorted({b.path for b, _, _ in facts.calls_to(DECODE) if b.path not in ENTRIES and not b.path.startswith("tests::") and "::tests::" not in b.path})
+    # (a decode call that reached a function only because a reference-tree parser was spliced into it for analysis - `from_slice`
+    # inlined into a connection loop - does not make that function a parser: the parser is analysed in its own right)
+    import json as _json
+    import os as _os
+    from analysis.canon import KNOWN as _KNOWN
+    try:
+        ref_fns = set(_json.load(open(_KNOWN)).get("fns", {}))
+    except Exception:
+        ref_fns = set()
+    derived = sorted({b.path for b, i_, _ in facts.calls_to(DECODE) if b.path not in ENTRIES and not b.path.startswith("tests::") and "::tests::" not in b.path
+                      and not (b.blocks[i_].get("inlined_from") in ref_fns)})
     if derived:
         R.note("derived entry points (callers of Header::decode outside the table): " + ", ".join(derived))
     F = reachable_bodies(facts, tuple(ENTRIES) + tuple(derived))
